@@ -2039,6 +2039,8 @@ class C06(Prop):
                     it, f_ = int(info.p[2]), int(info.p[4])
                     if (it in (0, 1) and f_ <= 2) or (it == 2 and f_ <= 1):
                         cls = "sincout:integer-position-overshoot"
+                if info.kind.startswith("sinc") and info.p[-1] == "rprobe" and info.L % 2 == 1:
+                    cls = "sinc:user-interpolator-odd-length"          # witness class of finding D19
                 v["class"] = cls
                 out.append(v)
                 break
